@@ -7,6 +7,7 @@ import (
 	"strconv"
 	"strings"
 	"sync"
+	"sync/atomic"
 	"time"
 	"unicode/utf8"
 
@@ -47,6 +48,16 @@ func clearlyValidHeader(r *gen.R, h ir.Header) string {
 	return gen.Pick(r, []string{"abc", "Bearer tok-123", "x y"})
 }
 
+// invalidCursor makes invalidHeader walk through each pool in order (per type / format), so that
+// every listed malformation is sent within a few draws instead of with probability 1/len.
+var invalidCursor sync.Map
+
+func cyclePick(key string, pool []string) string {
+	v, _ := invalidCursor.LoadOrStore(key, new(atomic.Int64))
+	n := v.(*atomic.Int64).Add(1) - 1
+	return pool[int(n)%len(pool)]
+}
+
 func invalidHeader(r *gen.R, h ir.Header) string {
 	switch h.Type {
 	case "integer":
@@ -60,15 +71,15 @@ func invalidHeader(r *gen.R, h ir.Header) string {
 	}
 	switch h.Format {
 	case "uuid":
-		return gen.Pick(r, []string{"123e4567e89b42d3a456426614174000", "123e4567-e89b-42d3-a456-42661417400", "zzzzzzzz-zzzz-zzzz-zzzz-zzzzzzzzzzzz", "123e4567+e89b+42d3+a456+426614174000"})
+		return cyclePick("uuid", []string{"123e4567e89b42d3a456426614174000", "123e4567-e89b-42d3-a456-42661417400", "zzzzzzzz-zzzz-zzzz-zzzz-zzzzzzzzzzzz", "123e4567+e89b+42d3+a456+426614174000"})
 	case "email":
-		return gen.Pick(r, []string{"no-at-sign", "@", "a@", "@b"})
+		return cyclePick("email", []string{"no-at-sign", "@", "a@", "@b", "a@b@c.test", "alice@@example.com", "alice@example.com@evil.test"})
 	case "date-time":
-		return gen.Pick(r, []string{"2020-01-02", "yesterday", "2020-13-01T00:00:00Z"})
+		return cyclePick("date-time", []string{"2020-01-02", "yesterday", "2020-13-01T00:00:00Z", "2020-01-02T03:04:05", "2020-01-02 03:04:05Z"})
 	case "date":
-		return gen.Pick(r, []string{"2020-1-2", "01/02/2020", "2020-02-30"})
+		return cyclePick("date", []string{"2020-1-2", "01/02/2020", "2020-02-30", "2020-01-02T00:00:00Z"})
 	case "time":
-		return gen.Pick(r, []string{"3:4:5", "25:00:00", "noon"})
+		return cyclePick("time", []string{"3:4:5", "25:00:00", "noon", "03:04", "03:04:05Z"})
 	}
 	return "\xff\xfe" // not valid UTF-8
 }
